@@ -78,6 +78,7 @@ def parseErr : String → Option VmErr
   | "ok" => some .ok
   | "vm" => some .vm
   | "system" => some .system
+  | "timeout" => some .system
   | "negfee" => some .negfee
   | _ => none
 
@@ -215,11 +216,21 @@ def step (s : Sess) (line : String) : Sess × String :=
     | ["ok"] => answer (validateBlock s.committed (blk s.txs)) true
     | ["badroot"] => answer (validateBlock s.committed (blk s.txs)) false
     | ["badreceipts"] => answer (validateBlock s.committed (blk s.txs)) false
+    | ["badsig"] =>
+      -- a signature made wrong: the model has no signatures; the block executes as it is and the verifier's
+      -- verdict refuses it
+      match validateBlock s.committed (blk s.txs) with
+      | some _ => (s, s!"refused-sig | {dump s.committed 0}")
+      | none => (s, s!"refused-tx | {dump s.committed 0}")
     | "badtx" :: pos :: txw =>
       match pos.toNat?, parseTx txw with
       | some pos, some tx => answer (validateBlock s.committed (blk (s.txs.take pos ++ [tx] ++ s.txs.drop pos))) false
       | _, _ => (s, "bad-op")
     | _ => (s, "bad-op")
+  | ["abort"] =>
+    -- a block state that is dropped without a commit (probe block)
+    if !s.inBlock || s.rewarded then (s, "bad-op") else
+    ({ s with inBlock := false }, s!"ok | {dump s.committed 0}")
   | ["end"] =>
     -- the producer commits its own block state
     if !s.inBlock || !s.rewarded then (s, "bad-op") else
